@@ -235,3 +235,141 @@ def run(ctx):
         verdict, why = fallback_step_verdict(expr)
         ctx.check("R17.3", f"{fi.key}::CG fallback is +c*gradient with c > 0 (so the Newton step moves along the negative gradient)",
                   verdict, f"{src(expr)}: {why}", fi)
+
+
+# ---------------------------------------------------------------------------------------------------------------- R17.4 / R17.5
+def r17_4(ctx, m):
+    """net effect of the where-chain on the step scaling in the compiled line search"""
+    from ..model import src, walk_no_nested, call_name
+    mod = m.module("nifty.re.optimize")
+    ls = mod.functions.get("_line_search_successive_halving")
+    ctx.rule("R17.4", "compiled line search, net update of the step scaling in one trial: halved after a failed trial, set back to "
+                      "exactly 1 when the steepest-descent reset fires (so the reset direction is tried with full, 1/2, 1/4 length like "
+                      "the eager variant), unchanged after a successful trial", floor=3)
+    if ls is None:
+        ctx.error("_line_search_successive_halving missing")
+        return
+    steps = [f for f in ast.walk(ls.node) if isinstance(f, ast.FunctionDef) and f is not ls.node and
+             any(isinstance(s_, ast.Assign) and isinstance(s_.value, ast.Call) and call_name(s_.value) == "where" for s_ in f.body)]
+    if len(steps) != 1:
+        ctx.und("R17.4", f"{ls.key}::single-step function", f"{len(steps)} candidates", ls)
+        return
+    st = steps[0]
+    # the scaling variable: the one multiplied with the direction in the trial point
+    gs = None
+    for s_ in st.body:
+        if isinstance(s_, ast.Assign) and isinstance(s_.value, ast.BinOp) and isinstance(s_.value.op, ast.Sub) and isinstance(s_.value.right, ast.BinOp) \
+                and isinstance(s_.value.right.op, ast.Mult) and isinstance(s_.value.right.left, ast.Name):
+            gs = s_.value.right.left.id
+            break
+    # the reset flag: `X = (i == 5) & (status < -1)`
+    resetn, failn = None, None
+    for s_ in st.body:
+        if isinstance(s_, ast.Assign) and isinstance(s_.targets[0], ast.Name) and isinstance(s_.value, ast.BinOp) and isinstance(s_.value.op, ast.BitAnd) \
+                and "== 5" in src(s_.value):
+            resetn = s_.targets[0].id
+            failn = src(s_.value.right).strip("()").replace(" ", "")
+    if gs is None or resetn is None:
+        ctx.und("R17.4", f"{ls.key}::scaling / reset flag", f"scaling {gs}, reset flag {resetn}", ls)
+        return
+
+    from fractions import Fraction
+
+    def lin(e, cur):
+        """(coef of S, const) of a scalar expression in the scaling variable"""
+        if isinstance(e, ast.Name) and e.id == gs:
+            return cur
+        if isinstance(e, ast.Constant) and isinstance(e.value, (int, float)) and not isinstance(e.value, bool):
+            return (Fraction(0), Fraction(e.value))
+        if isinstance(e, ast.BinOp) and isinstance(e.op, (ast.Div, ast.Mult)):
+            l, r = lin(e.left, cur), lin(e.right, cur)
+            if l is None or r is None:
+                return None
+            if isinstance(e.op, ast.Div) and r[0] == 0 and r[1] != 0:
+                return (l[0] / r[1], l[1] / r[1])
+            if isinstance(e.op, ast.Mult) and r[0] == 0:
+                return (l[0] * r[1], l[1] * r[1])
+            if isinstance(e.op, ast.Mult) and l[0] == 0:
+                return (r[0] * l[1], r[1] * l[1])
+        return None
+
+    def final(assume):
+        """(coef, const) of the scaling after the step body under the assumed truth values of conditions (by source text)"""
+        cur = (Fraction(1), Fraction(0))
+        for s_ in st.body:
+            if isinstance(s_, ast.Assign) and isinstance(s_.targets[0], ast.Name) and s_.targets[0].id == gs and isinstance(s_.value, ast.Call) \
+                    and call_name(s_.value) == "where" and len(s_.value.args) == 3:
+                c, a_, b_ = s_.value.args
+                val = assume.get(src(c).replace(" ", ""))
+                if val is None:
+                    return None
+                cur = lin(a_ if val else b_, cur)
+                if cur is None:
+                    return None
+            elif isinstance(s_, ast.Assign) and any(isinstance(t, ast.Name) and t.id == gs for t in s_.targets) and not (
+                    isinstance(s_.value, ast.Subscript) or isinstance(s_.value, ast.Tuple)):
+                return None
+        return cur
+    cases = (("failed trial, no reset", {failn: True, resetn: False}, (Fraction(1, 2), Fraction(0))),
+             ("failed trial at the reset point", {failn: True, resetn: True}, (Fraction(0), Fraction(1))),
+             ("successful trial", {failn: False, resetn: False}, (Fraction(1), Fraction(0))))
+    for label, assume, want in cases:
+        v = final(assume)
+        show = lambda t: f"{t[0]}*S + {t[1]}"  # noqa: E731
+        ctx.check("R17.4", f"{ls.key}::{label}", (v == want) if v is not None else None,
+                  (f"scaling becomes {show(v)}" + ("" if v == want else f"; expected {show(want)}")) if v is not None else "where-chain not understood", ls)
+
+
+def r17_5(ctx, m):
+    from ..model import src, walk_no_nested, call_name
+    mod = m.module("nifty.re.conjugate_gradient")
+    sp_ = mod.functions.get("_cg_steihaug_subproblem")
+    ctx.rule("R17.5", "trust-region sub-problem at negative curvature: both intersections of the search line with the trust-region "
+                      "boundary are formed and the one with the LOWER model value is taken (the model is evaluated at both)", floor=1)
+    if sp_ is None:
+        ctx.error("_cg_steihaug_subproblem missing")
+        return
+    ctx.saw_func(sp_)
+    # the model: partial(second_order_approx, ...)
+    models = [src(s_.targets[0]) for s_ in walk_no_nested(sp_.node) if isinstance(s_, ast.Assign) and isinstance(s_.value, ast.Call)
+              and call_name(s_.value) == "partial" and s_.value.args and src(s_.value.args[0]) == "second_order_approx"]
+    cand = []
+    for f in ast.walk(sp_.node):
+        if isinstance(f, ast.FunctionDef) and f is not sp_.node:
+            inter = [s_ for s_ in f.body if isinstance(s_, ast.Assign) and isinstance(s_.value, ast.Call) and call_name(s_.value) == "get_boundaries_intersections"]
+            pts = [s_ for s_ in f.body if isinstance(s_, ast.Assign) and isinstance(s_.value, ast.BinOp) and isinstance(s_.value.op, ast.Add)
+                   and isinstance(s_.value.right, ast.BinOp) and isinstance(s_.value.right.op, ast.Mult)]
+            if inter and len(pts) >= 2:
+                cand.append((f, inter[0], pts))
+    key = f"{sp_.key}::boundary point with the lower model value"
+    if len(cand) != 1 or len(models) != 1:
+        ctx.und("R17.5", key, f"{len(cand)} functions forming both boundary points, {len(models)} model bindings", sp_)
+        return
+    f, inter, pts = cand[0]
+    M = models[0]
+    pa, pb = [src(p.targets[0]) for p in pts[:2]]
+    sel = [s_ for s_ in f.body if isinstance(s_, ast.Assign) and isinstance(s_.value, ast.Call) and call_name(s_.value) == "where" and len(s_.value.args) == 3
+           and {src(s_.value.args[1]), src(s_.value.args[2])} == {pa, pb}]
+    if len(sel) != 1:
+        ctx.und("R17.5", key, "selection where(<cond>, pa, pb) not found", sp_)
+        return
+    c, x, y = sel[0].value.args
+    good = False
+    if isinstance(c, ast.Compare) and len(c.ops) == 1:
+        l, r = src(c.left).replace(" ", ""), src(c.comparators[0]).replace(" ", "")
+        X, Y = src(x), src(y)
+        if isinstance(c.ops[0], (ast.Lt, ast.LtE)):
+            good = (l, r) == (f"{M}({X})", f"{M}({Y})")
+        elif isinstance(c.ops[0], (ast.Gt, ast.GtE)):
+            good = (l, r) == (f"{M}({Y})", f"{M}({X})")
+    ctx.check("R17.5", key, good, f"`{src(sel[0].value)}`" + ("" if good else f": the choice between {pa} and {pb} does not compare the model "
+                                                              f"`{M}` at both points; the farther intersection can lie uphill"), sp_, sel[0])
+
+
+_run_c17b = run
+
+
+def run(ctx):  # noqa: F811
+    _run_c17b(ctx)
+    r17_4(ctx, ctx.model)
+    r17_5(ctx, ctx.model)
